@@ -438,6 +438,18 @@ def verify_global_sample_unbounded(interp):
 
 # ------------------------------------------------------------------------------------------------------------
 # Unbounded proof of samples_to_write (the part of the call that belongs to the current file), for every index_len.
+
+def _t_assign_line(interp, fn):
+    """source line of '*samples_to_write = top_index - bottom_index' (end of the first pass and of the T computation)"""
+    src = open(interp.tu.path).read().splitlines() if hasattr(interp.tu, "path") else []
+    first = fn.get("_line", 0)
+    for k in range(first, min(len(src), first + 400)):
+        t = src[k].replace(" ", "").replace("\t", "")
+        if t.startswith("*samples_to_write=top_index-bottom_index"):
+            return k + 1
+    raise Undecided("assignment '*samples_to_write = top_index - bottom_index' not found in %s" % INDEX_FN)
+
+
 def verify_index_T_unbounded(interp):
     from .c_blocks import local, set_local
     Ls = z3.Int("index_len")
@@ -519,7 +531,7 @@ def verify_index_T_unbounded(interp):
         elif o.kind == "inv" and "rows_nonneg" in o.label:
             o.label = INDEX_FN + ".T_unbounded.loop2." + o.label.split(".loop2.")[1]
             out.append(o)
-        elif o.kind == "safety" and o.line < 1860:
+        elif o.kind == "safety" and o.line <= _t_assign_line(interp, fn):
             # no-wrap / bounds obligations of the first pass and of the T computation, for every index_len
             o.label = o.label.split(".")[0] + "." + INDEX_FN + ".T_unbounded"
             out.append(o)
@@ -605,3 +617,146 @@ def verify_write_index_rebase_unbounded(interp):
         raise EngineError("no successful path through " + name)
     del interp.obls[n0:]
     interp.obls.extend(out)
+
+
+def verify_index_rows_unbounded(interp):
+    """exact rows of create_rf_data_index for EVERY index_len (loop invariants over both passes).
+    Ghost function cnt(j) = number of rows contributed by the blocks before j (defined by its recursion, monotone by the lemma
+    L-cnt-mono); sel(j) = "block j contributes a row": j = 0 and (new file or chunked), or j >= 1 and the block starts after the write
+    position and before the end of the file window (w < b[j] and g[j] < E; equivalent to w < b[j] < w+T by lemma L-sel-equiv).
+    pass 1: row_count = cnt(i).  pass 2: rows_written = cnt(i) and for every contributing block j < i row cnt(j) of the returned array is
+    (g[j] + start, b[j] - w) (first row: the property's first-row value).  Post: rows_to_write = cnt(index_len) and that content."""
+    from .c_blocks import local, set_local
+    Ls = z3.Int("index_len")
+    st, args, a, fn = index_setup(interp, Ls)
+    g, b, V, w, E, nxt = a.g, a.b, a.V, a.w, a.E, a.next
+    jw = z3.Int("ghost_block_of_w")
+    x, y = z3.Ints("x!wf y!wf")
+    cnt = z3.Function("cnt", z3.IntSort(), z3.IntSort())
+    inblk = lambda k, t: z3.And(k >= 0, k < Ls, z3.Select(b, k) <= t, z3.Or(k == Ls - 1, t < z3.Select(b, k + 1)), t < V)
+    val = lambda k, t: z3.Select(g, k) + t - z3.Select(b, k)
+    P = lambda p, q: z3.And(z3.Select(b, p) < z3.Select(b, q), z3.Select(g, p) < z3.Select(g, q),
+                            z3.Select(b, q) - z3.Select(b, p) <= z3.Select(g, q) - z3.Select(g, p))
+    inst = lambda p, q: z3.Implies(z3.And(0 <= p, p < q, q < Ls), P(p, q))
+    first_present = z3.Or(a.fe == 0, a.chunk != 0)
+    first_g = a.next + a.start - z3.If(z3.And(a.cont != 0, a.chunk == 0), a.mx - a.left, 0)
+    sel = lambda j: z3.If(j == 0, first_present, z3.And(w < z3.Select(b, j), z3.Select(g, j) < E))
+    rowg = lambda j: z3.If(j == 0, first_g, z3.Select(g, j) + a.start)
+    rowoff = lambda j: z3.If(j == 0, 0, z3.Select(b, j) - w)
+    step_ax = lambda j: z3.Implies(z3.And(0 <= j, j < Ls), cnt(j + 1) == cnt(j) + z3.If(sel(j), 1, 0))
+    mono = lambda p, q: z3.Implies(z3.And(0 <= p, p <= q, q <= Ls), cnt(p) <= cnt(q))
+    hy = [Ls >= 1, Ls < (1 << 30), z3.Select(b, 0) == 0, w >= 0, w < V, a.left >= 1, a.left <= a.mx,
+          z3.ForAll([x, y], z3.Implies(z3.And(0 <= x, x < y, y < Ls), P(x, y))),
+          z3.ForAll([x], z3.Implies(z3.And(0 <= x, x < Ls), z3.And(z3.Select(b, x) >= 0, z3.Select(b, x) < V, z3.Select(g, x) >= 0, z3.Select(g, x) < U62))),
+          inblk(jw, w), nxt == val(jw, w),
+          z3.Implies(w == 0, z3.Select(g, 0) >= a.cursor),
+          nxt + a.start - (a.mx - a.left) >= 0,
+          # ghost function: recursion and (lemma L-cnt-mono) monotonicity
+          cnt(0) == 0, z3.ForAll([x], step_ax(x)), z3.ForAll([x, y], mono(x, y)), z3.ForAll([x], z3.Implies(z3.And(0 <= x, x <= Ls), z3.And(cnt(x) >= 0, cnt(x) <= x)))]
+    for c in hy:
+        st.assume(c)
+    orows, ostw, wobj = a._objs
+    rows0 = st.mem[orows]
+
+    def hints(s, i):
+        # instances of the quantified hypotheses at the loop position (sound: they are instances)
+        for c in (inst(i - 1, jw), inst(jw, i - 1), inst(i, jw), inst(jw, i), inst(i - 1, i), step_ax(i), mono(i + 1, Ls), mono(i, Ls),
+                  z3.Implies(z3.And(0 <= i, i <= Ls), z3.And(cnt(i) >= 0, cnt(i) <= i))):
+            s.assume(c)
+
+    def inv(it, s):
+        i = Z(local(it, s, fn, "i"))
+        pi, ps = Z(local(it, s, fn, "prev_index")), Z(local(it, s, fn, "prev_sample"))
+        return [("range", z3.And(i >= 0, i <= Ls)),
+                ("prev", z3.Implies(i > 0, z3.And(pi == z3.Select(b, i - 1), ps == z3.Select(g, i - 1)))),
+                ("row_count_is_cnt", Z(local(it, s, fn, "row_count")) == cnt(i)),
+                ("not_rejected", Z(s.mem[orows]) == Z(rows0))]
+
+    def havoc(it, s):
+        for nm in ("i", "this_index", "this_sample", "prev_index", "prev_sample", "bottom_index", "top_index", "row_count"):
+            set_local(it, s, fn, nm, fresh_int(nm))
+        hints(s, Z(local(it, s, fn, "i")))
+
+    def ret_arr(it, s):
+        p = local(it, s, fn, "ret_arr")
+        if not isinstance(p, Ptr) or p.obj is None or not isinstance(s.mem.get(p.obj), ArrVal):
+            raise Undecided("ret_arr does not point to the allocated block at the second pass")
+        return s.mem[p.obj]
+
+    def content(arr, upto):
+        j = z3.Int("j!rows")
+        return z3.ForAll([j], z3.Implies(z3.And(0 <= j, j < upto, sel(j)),
+                                         z3.And(z3.Select(arr, 2 * cnt(j)) == rowg(j), z3.Select(arr, 2 * cnt(j) + 1) == rowoff(j))))
+
+    def inv2(it, s):
+        i = Z(local(it, s, fn, "i"))
+        pi, ps = Z(local(it, s, fn, "prev_index")), Z(local(it, s, fn, "prev_sample"))
+        arr = ret_arr(it, s)
+        return [("range", z3.And(i >= 0, i <= Ls)),
+                ("prev", z3.Implies(i > 0, z3.And(pi == z3.Select(b, i - 1), ps == z3.Select(g, i - 1)))),
+                ("rows_written_is_cnt", Z(local(it, s, fn, "rows_written")) == cnt(i)),
+                ("content", content(arr.arr, i))]
+
+    def havoc2(it, s):
+        for nm in ("i", "this_index", "this_sample", "prev_index", "prev_sample", "rows_written"):
+            set_local(it, s, fn, nm, fresh_int(nm))
+        p = local(it, s, fn, "ret_arr")
+        if isinstance(p, Ptr) and p.obj is not None and isinstance(s.mem.get(p.obj), ArrVal):
+            v = s.mem[p.obj]
+            s.mem[p.obj] = ArrVal(z3.Array("ret_havoc!%d" % len(s.pc), z3.IntSort(), z3.IntSort()), v.length, v.elem)
+        hints(s, Z(local(it, s, fn, "i")))
+
+    def on_exit1(it, s):
+        i = Z(local(it, s, fn, "i"))
+        s.assume(mono(i, Ls))
+    n0 = len(interp.obls)
+    paths = interp.run_function(INDEX_FN, st, args, {"overflow": "check", "loops": {1: {"invariant": inv, "havoc": havoc, "on_exit": on_exit1},
+                                                                                    2: {"invariant": inv2, "havoc": havoc2}}})
+    out = []
+    for o in interp.obls[n0:]:
+        if o.kind == "inv":
+            o.label = o.label.replace(INDEX_FN + ".loop1", INDEX_FN + ".rows_unbounded.pass1").replace(INDEX_FN + ".loop2", INDEX_FN + ".rows_unbounded.pass2")
+            out.append(o)
+        elif o.kind == "safety" and o.line > _t_assign_line(interp, fn):
+            # allocation size, stores into the returned block, the assert after the second pass - for every index_len
+            o.label = o.label.split(".")[0] + "." + INDEX_FN + ".rows_unbounded"
+            out.append(o)
+    for s, rv in paths:
+        rows_out = Z(s.mem[orows])
+        s2 = s.copy()
+        s2.assume(rows_out != -1)
+        out.append(Obl("%s.rows_unbounded.row_count" % INDEX_FN, INDEX_FN, fn["_line"], s2.pc, rows_out == cnt(Ls), kind="post", qhyps=s2.qpc))
+        if isinstance(rv, Ptr) and rv.obj is not None and isinstance(s.mem.get(rv.obj), ArrVal):
+            arr = s.mem[rv.obj]
+            s3 = s2.copy()
+            s3.assume(z3.Not(B(interp.isnull(rv))))
+            out.append(Obl("%s.rows_unbounded.rows" % INDEX_FN, INDEX_FN, fn["_line"], s3.pc, content(arr.arr, Ls), kind="post", qhyps=s3.qpc))
+            out.append(Obl("%s.rows_unbounded.rows_alloc" % INDEX_FN, INDEX_FN, fn["_line"], s3.pc, Z(arr.length) == 2 * rows_out, kind="post", qhyps=s3.qpc))
+        else:
+            out.append(Obl("%s.rows_unbounded.null_only_if_no_rows" % INDEX_FN, INDEX_FN, fn["_line"], s2.pc, rows_out == 0, kind="post", qhyps=s2.qpc))
+    del interp.obls[n0:]
+    interp.obls.extend(out)
+    return a
+
+
+def lemmas_rows_unbounded():
+    """L-cnt-mono (step of the induction on the distance: cnt(q+1) >= cnt(q)) and L-sel-equiv (for a block that starts after the write
+    position: 'starts before the end of the file window' <=> 'starts inside the T samples written')"""
+    Ls, w, V, E, T, j, c1, c2, p, q = z3.Ints("index_len samples_written vector_len E T j c1 c2 p q")
+    g, b = z3.Array("g", z3.IntSort(), z3.IntSort()), z3.Array("b", z3.IntSort(), z3.IntSort())
+    cnt = z3.Function("cnt", z3.IntSort(), z3.IntSort())
+    selq = z3.Bool("sel_q")
+    out = [Obl("L-cnt-mono.step", "spec", 0, [0 <= p, p <= q, q < Ls, cnt(p) <= cnt(q), cnt(q + 1) == cnt(q) + z3.If(selq, 1, 0)], cnt(p) <= cnt(q + 1), kind="lemma"),
+           Obl("L-cnt-mono.base", "spec", 0, [0 <= p, p <= Ls], cnt(p) <= cnt(p), kind="lemma")]
+    P = lambda a_, c_: z3.And(z3.Select(b, a_) < z3.Select(b, c_), z3.Select(g, a_) < z3.Select(g, c_),
+                              z3.Select(b, c_) - z3.Select(b, a_) <= z3.Select(g, c_) - z3.Select(g, a_))
+    inst = lambda a_, c_: z3.Implies(z3.And(0 <= a_, a_ < c_, c_ < Ls), P(a_, c_))
+    inblk = lambda k, t: z3.And(k >= 0, k < Ls, z3.Select(b, k) <= t, z3.Or(k == Ls - 1, t < z3.Select(b, k + 1)), t < V)
+    val = lambda k, t: z3.Select(g, k) + t - z3.Select(b, k)
+    hy = [Ls >= 1, 1 <= j, j < Ls, w >= 0, T >= 1, w + T <= V, w < z3.Select(b, j), z3.Select(b, j) < V,
+          inblk(c1, w + T - 1), val(c1, w + T - 1) < E, z3.Or(w + T == V, z3.And(inblk(c2, w + T), val(c2, w + T) >= E)),
+          inst(j, c1), inst(c1, j), inst(j, c2), inst(c2, j), inst(j, c1 + 1), inst(c1 + 1, j), inst(c2 - 1, j), inst(j, c2 - 1), inst(j, c2 + 1), inst(c2 + 1, j)]
+    xq, yq = z3.Ints("x!wf y!wf")
+    hy.append(z3.ForAll([xq, yq], z3.Implies(z3.And(0 <= xq, xq < yq, yq < Ls), P(xq, yq))))
+    out.append(Obl("L-sel-equiv", "spec", 0, hy, (z3.Select(g, j) < E) == (z3.Select(b, j) < w + T), kind="lemma"))
+    return out
